@@ -109,7 +109,7 @@ Theorem c13_off_wire : forall deflate c ms, mode_of c = MOff -> snd (tx_run defl
 Proof. exact off_wire0. Qed.
 Print Assumptions c13_off_wire.
 
-(* F22 (found by h-transport on the real code): Go's flate.NewWriterDict violates the round
+(* F28 (found by h-transport on the real code): Go's flate.NewWriterDict violates the round
    trip premise - for an incompressible message it can emit a stored block that contains the
    dictionary.  Whenever that happens the reader hands up dictionary ++ message, which is not
    the message. *)
@@ -120,6 +120,40 @@ Theorem c13_ws_delivery_refuted_when_dictionary_leaks : forall deflate inflate c
   tx_win tx ++ m <> m.
 Proof. exact dict_leak_breaks_delivery. Qed.
 Print Assumptions c13_ws_delivery_refuted_when_dictionary_leaks.
+
+(* The reader the judge runs on the implementation's wire log ([rd_follow], DEFLATE-free, told by
+   the harness' independent inflater where a dictionary leak was observed): without leaks its
+   outputs are the written messages and its dictionaries are the writer's ([wins_after]); a leak
+   on a non-empty dictionary always shows as a wrong message. *)
+Theorem c13_judge_reader_without_leak : forall c ms w,
+  map fst (rd_follow c w (map (fun m => (m, false)) ms)) = ms /\
+  map snd (rd_follow c w (map (fun m => (m, false)) ms)) = wins_after c w ms.
+Proof. exact rd_follow_no_leak. Qed.
+Print Assumptions c13_judge_reader_without_leak.
+Theorem c13_judge_reader_leak_shows : forall c w m ms, w <> [] ->
+  exists w', rd_follow c w ((m, true) :: ms) = (w ++ m, w') :: rd_follow c w' ms /\ w ++ m <> m.
+Proof. exact rd_follow_leak_shows. Qed.
+Print Assumptions c13_judge_reader_leak_shows.
+
+(* Read AS IT IS NOW drains the message reader to io.EOF after decoding (fix 1ebe65c of F29), so
+   the rule of coder/nhooyr - Reader() refused while the previous message was not read to io.EOF -
+   has no effect: on a strict Conn as on a lenient one, for every configuration and message
+   sequence, the peer's reads are the written messages, in order, one per call. *)
+Theorem c13_strict_conn_delivery : forall deflate inflate,
+  (forall l d m, inflate d (deflate l d m) = (m, true)) ->
+  forall strict c ms tx rx, tx_win tx = rx_win rx ->
+  conn_rule strict (mode_of c) (snd (rx_run inflate c rx (snd (tx_run deflate c tx ms)))) = map Some ms.
+Proof. exact delivery_on_any_conn. Qed.
+Print Assumptions c13_strict_conn_delivery.
+
+(* F29 - FIXED in /repo; a statement about the FORMER Read ([conn_rule_gen false]: found by
+   h-transport with a strict in-memory Conn, reproduced over loopback with the real coder
+   backend): with compression on it stopped at the end of the DEFLATE stream, and on a strict
+   Conn every read after the first failed. *)
+Theorem c13_former_read_strict_conn_refuted : forall m r rest, m <> MOff ->
+  conn_rule_gen false true m (r :: rest) = r :: map (fun _ => None) rest.
+Proof. exact former_read_strict_conn_loses_messages. Qed.
+Print Assumptions c13_former_read_strict_conn_refuted.
 
 (* ---------- datagram sequence numbers (shared by WriteUnreliable and all AsUnreliable handles) ---------- *)
 
